@@ -159,6 +159,25 @@ func execute(run *Run, choose func(step int, rel []int) int, events *[]Event) *e
 			}
 			return true
 		case <-time.After(stallTimeout):
+			// a goroutine that is merely slow (a loaded machine) is not stalled: only one that is parked inside the map
+			// on some primitive is; anything else gets a long grace period
+			for waited := stallTimeout; waited < 20*stallTimeout; waited += stallTimeout {
+				if blockedInMap() != "other" {
+					return false
+				}
+				select {
+				case g := <-workers[p].report:
+					if g.done {
+						finished[p] = true
+						parked[p] = nil
+					} else {
+						gg := g
+						parked[p] = &gg
+					}
+					return true
+				case <-time.After(stallTimeout):
+				}
+			}
 			return false
 		}
 	}
@@ -429,9 +448,22 @@ func freeRun(run *Run, rng *rand.Rand, events *[]Event) (stall string) {
 	select {
 	case <-finished:
 	case <-time.After(2 * stallTimeout):
-		// some caller never came back: the goroutines stay parked (they are abandoned), the execution is reported
-		return "free-running callers never returned (blocked in " + blockedInMap() + ")"
+		// some caller never came back.  Parked inside the map: the goroutines are abandoned and the execution is
+		// reported; merely slow (a loaded machine): keep waiting
+		for waited := 0; blockedInMap() == "other" && waited < 20; waited++ {
+			select {
+			case <-finished:
+				goto done
+			case <-time.After(stallTimeout):
+			}
+		}
+		select {
+		case <-finished:
+		default:
+			return "free-running callers never returned (blocked in " + blockedInMap() + ")"
+		}
 	}
+done:
 	*events = append(*events, Event{"ev": "reset", "run": run.Id})
 	// stamps are unique and increasing; sort by stamp
 	out := make([]Event, len(evs))
